@@ -176,6 +176,15 @@ func (t *tr) expr(e ast.Expr, b *binds, hoistOK bool) (string, kind) {
 			}
 			return "(" + l + " || " + r + ")", kBool
 		}
+		if id, ok := v.Y.(*ast.Ident); ok && id.Name == "None" && (v.Op == token.EQL || v.Op == token.NEQ) {
+			l, lk := t.expr(v.X, b, hoistOK)
+			if lk == kOptZ {
+				if v.Op == token.EQL {
+					return "(match " + l + " with None => true | Some _ => false end)", kBool
+				}
+				return "(match " + l + " with None => false | Some _ => true end)", kBool
+			}
+		}
 		l, lk := t.expr(v.X, b, hoistOK)
 		r, rk := t.expr(v.Y, b, hoistOK)
 		cmp := map[token.Token]string{token.LSS: "<?", token.LEQ: "<=?", token.GTR: ">?", token.GEQ: ">=?", token.EQL: "=?"}
@@ -590,6 +599,44 @@ func (t *tr) stmts(list []ast.Stmt, k string) string {
 			}
 		}
 	case *ast.AssignStmt:
+		// x, err = sliceIndex(obj) / IndexInt(obj)   followed by   if err != nil { return ... }
+		if len(v.Rhs) == 1 && len(v.Lhs) == 2 && len(rest) > 0 {
+			if c, ok := v.Rhs[0].(*ast.CallExpr); ok {
+				if fn, ok := c.Fun.(*ast.Ident); ok && (fn.Name == "sliceIndex" || fn.Name == "IndexInt") && len(c.Args) == 1 {
+					if ifs, ok := rest[0].(*ast.IfStmt); ok && ifs.Init == nil && ifs.Else == nil && terminates(ifs.Body) {
+						if be, ok := ifs.Cond.(*ast.BinaryExpr); ok && be.Op == token.NEQ {
+							xv, ok1 := v.Lhs[0].(*ast.Ident)
+							ev, ok2 := v.Lhs[1].(*ast.Ident)
+							ce, ok3 := be.X.(*ast.Ident)
+							if ok1 && ok2 && ok3 && ce.Name == ev.Name {
+								return withBinds(func(b *binds) string {
+									obj, ok := t.expr(c.Args[0], b, true)
+									if ok != kOptZ {
+										fail(s, t.fset, "index conversion of a non-object")
+									}
+									t.env[xv.Name] = kZ
+									conv := "clip64"
+									if fn.Name == "IndexInt" {
+										conv = "index_int"
+									}
+									vn := t.tmp("o")
+									// failure branch: the error variable holds the exception, then the if-body runs
+									saved := map[string]kind{}
+									for a, bb := range t.env {
+										saved[a] = bb
+									}
+									t.env[ev.Name] = kValue
+									failT := fmt.Sprintf("let %s := VErr \"TypeError\" in\n%s", ev.Name, t.stmts(ifs.Body.List, ""))
+									t.env = saved
+									okT := fmt.Sprintf("let %s := %s %s in\n%s", xv.Name, conv, vn, t.stmts(rest[1:], k))
+									return fmt.Sprintf("match %s with\n| Some %s =>\n%s\n| None =>\n%s\nend", obj, vn, okT, failT)
+								})
+							}
+						}
+					}
+				}
+			}
+		}
 		// x, y := f(args)  for a translated multi-value function
 		if len(v.Rhs) == 1 && len(v.Lhs) > 1 && (v.Tok == token.DEFINE || v.Tok == token.ASSIGN) {
 			if c, ok := v.Rhs[0].(*ast.CallExpr); ok {
@@ -653,6 +700,11 @@ func (t *tr) stmts(list []ast.Stmt, k string) string {
 					x, kd := t.expr(be, b, true)
 					rhs = append(rhs, x)
 					kinds = append(kinds, kd)
+					continue
+				}
+				if id, ok := v.Lhs[i].(*ast.Ident); ok && t.env[id.Name] == kValue && v.Tok == token.ASSIGN {
+					rhs = append(rhs, t.value(r, b))
+					kinds = append(kinds, kValue)
 					continue
 				}
 				x, kd := t.expr(r, b, true)
@@ -806,8 +858,20 @@ func (t *tr) function(key, outName string, objParams map[string]bool) (text stri
 	}
 	if fd.Recv != nil {
 		f := fd.Recv.List[0]
+		if st, ok := f.Type.(*ast.StarExpr); ok {
+			if id, ok := st.X.(*ast.Ident); ok && id.Name == "Slice" {
+				for _, fld := range []string{"Start", "Stop", "Step"} {
+					n := f.Names[0].Name + "_" + fld
+					t.env[n] = kOptZ
+					params = append(params, fmt.Sprintf("(%s : option Z)", n))
+					pk = append(pk, kOptZ)
+				}
+				goto recvDone
+			}
+		}
 		addParam(f.Names[0].Name, f.Type)
 	}
+recvDone:
 	for _, f := range fd.Type.Params.List {
 		for _, n := range f.Names {
 			addParam(n.Name, f.Type)
@@ -849,6 +913,16 @@ func (t *tr) function(key, outName string, objParams map[string]bool) (text stri
 		}
 	}
 	term := t.stmts(body, "")
+	for i := len(t.named) - 1; i >= 0; i-- {
+		zero := "0"
+		switch t.ret[i] {
+		case kBool:
+			zero = "false"
+		case kValue:
+			zero = "VNil"
+		}
+		term = fmt.Sprintf("let %s := %s in\n", t.named[i], zero) + term
+	}
 	var rk []string
 	for _, k := range t.ret {
 		rk = append(rk, k.coq())
@@ -881,6 +955,9 @@ func main() {
 			{"py/int.go", "Int.M__add__", "M__add__"}, {"py/int.go", "Int.M__sub__", "M__sub__"}, {"py/int.go", "Int.M__rsub__", "M__rsub__"},
 			{"py/int.go", "Int.M__mul__", "M__mul__"}, {"py/int.go", "Int.M__lshift__", "M__lshift__"}, {"py/int.go", "Int.M__rlshift__", "M__rlshift__"},
 			{"py/int.go", "Int.M__divmod__", "M__divmod__"}, {"py/int.go", "Int.M__rdivmod__", "M__rdivmod__"},
+		},
+		"py_slice.v": {
+			{"py/slice.go", "Slice.GetIndices", "GetIndices"},
 		},
 		"py_range.v": {
 			{"py/range.go", "computeRangeLength", "computeRangeLength"},
